@@ -94,7 +94,8 @@ func (p *Publish) Unpack(r io.Reader) error {
 	if err != nil {
 		return err
 	}
-	if !ValidTopicName(true, p.TopicName) {
+	// a zero-length topic name is only allowed together with a topic alias (checked below)
+	if len(p.TopicName) != 0 && !ValidTopicName(true, p.TopicName) {
 		return codes.ErrMalformed
 	}
 	if p.Qos > Qos0 {
@@ -108,6 +109,9 @@ func (p *Publish) Unpack(r io.Reader) error {
 		if err := p.Properties.Unpack(bufr, PUBLISH); err != nil {
 			return err
 		}
+	}
+	if len(p.TopicName) == 0 && (p.Properties == nil || p.Properties.TopicAlias == nil) {
+		return codes.ErrProtocol
 	}
 	p.Payload = bufr.Next(bufr.Len())
 	return nil
